@@ -199,9 +199,22 @@ def run(ctx, tier, rnd, classes=None):
             pairs.append((x, nm))
     caps = [1, 2, 3, 5, 9] if quick else [1, 2, 3, 4, 5, 9]
     chunks = [1, 3, 9] if quick else [1, 2, 3, 4, 5, 9]
-    cst = consts(tla_inputs(pairs), True, caps, chunks, [[1]], [[1]], buf=6, max_intr=1, max_fail=1)
-    r = tlc(cst, INVS, workers=6 if quick else 10, timeout=600 if quick else 2400)
+    # quick: the Interrupted fault over the whole input set, the non-retryable error over the curated strings only
+    cst = consts(tla_inputs(pairs), True, caps, chunks, [[1]], [[1]], buf=6, max_intr=1, max_fail=0 if quick else 1)
+    fpairs = [(x, nm) for x in cur for nm in norm_variants(x, rnd, True)]
+    jobs = [lambda: tlc(cst, INVS, workers=6 if quick else 10, timeout=900 if quick else 3000)]
+    if quick:
+        jobs.append(lambda: tlc(consts(tla_inputs(fpairs), True, caps, chunks, [[1]], [[1]], buf=6, max_intr=0, max_fail=1), INVS, workers=3, timeout=900))
+    rr = dlib.parallel(jobs, workers=2)
+    r = rr[0]
     ctx.note_tlc("Bcj2Decoder free mode", r)
+    for r2 in rr[1:]:
+        ctx.note_tlc("Bcj2Decoder free mode, source errors", r2)
+        if not r2.ok:
+            raise ToolError(f"TLC reports {r2.violated} for the BCJ2 decoder design (source errors)")
+        for k, v in r2.coverage.items():
+            if k in r.coverage:
+                r.coverage[k] = (r.coverage[k][0] + v[0], r.coverage[k][1] + v[1])
     log(f"[bcj2 M] {len(pairs)} abstract inputs, free destination / delivery sizes, 1 Interrupted + 1 other source error: {r}")
     if not r.ok:
         # the design spec must hold; a counter-example here is a finding about the DESIGN the code implements and is
@@ -306,6 +319,20 @@ def run(ctx, tier, rnd, classes=None):
             nxt = json.dumps(events[reached])[:300] if reached is not None and reached < len(events) else "?"
             ctx.note_drift(f"Trace_Bcj2Decoder rejected the recorded BCJ2Reader traces after event {reached} of {total}; next event {nxt}"
                            + (f" (TLC: {r.violated})" if r.violated and r.violated != "postcondition" else ""))
+    # negative control of the binding: one recorded field corrupted (decoder state of one Ret event) must make TLC
+    # reject the trace - otherwise the trace specification constrains nothing
+    if accepted:
+        k0 = next(i for i, e in enumerate(events) if e.get("op") == "Reset")
+        k1 = next((i for i, e in enumerate(events) if i > k0 and e.get("op") == "Reset"), len(events))
+        one = [dict(e) for e in events[k0:k1]]
+        rets = [i for i, e in enumerate(one) if e.get("op") == "Ret"]
+        if rets:
+            i = rets[len(rets) // 2]
+            one[i]["st"] = (one[i]["st"] + 1) % 10
+            okc, reachedc, totalc, rc = core.validate_events("Trace_Bcj2Decoder", cst, one, invariants=("Track", "TraceInv"), timeout=600, seq_consts=SEQ)
+            if okc or reachedc is None or reachedc > i:
+                raise ToolError(f"binding control failed: Trace_Bcj2Decoder accepted a trace whose recorded decoder state was corrupted at event {i} (reached {reachedc} of {totalc})")
+            ctx.add("bcj2_corrupted_trace_rejected_at_event", 1)
     ctx.add("bcj2_traces_validated", accepted)
     ctx.cov["traces_validated_against_impl"] = ctx.cov.get("traces_validated_against_impl", 0) + accepted
     if accepted == 0 and not ctx.violations and not n_drift and tp:
